@@ -53,4 +53,61 @@ for k in before:
     same = before[k] == after[k]
     print(k, '\n   as constructed      :', before[k], '\n   names with version  :', after[k], '' if same else '   <-- DIFFERS')
     bad += not same
+
+# ---- part 2 (third review): the version on EVERY concept name of the tree (root, contexts, containers, groups, children), the
+# report inside a Comprehensive 3D SR document, written and read with srread
+import io  # noqa: E402
+import pydicom  # noqa: E402
+from gen import srdocs  # noqa: E402
+
+
+def version_all(ds):
+    if 'ConceptNameCodeSequence' in ds:
+        ds.ConceptNameCodeSequence[0].CodingSchemeVersion = '01'
+    for x in ds.get('ContentSequence', []):
+        version_all(x)
+
+
+def document(rep_, groups_, pool_, versioned):
+    refs = []
+    for g in groups_:
+        for x in srreports.all_references(g):
+            if x not in refs:
+                refs.append(x)
+    base = pool_['base']
+    evidence = [srdocs.evidence_dataset(base + '.0', base + '.0.1', i, cls, image=True) for cls, i in refs] + list(pool_.get('library', []))
+    doc = hd.sr.Comprehensive3DSR(evidence=evidence, content=rep_[0], series_instance_uid=base + '.5', series_number=5,
+                                  sop_instance_uid=base + '.5.1', instance_number=1, manufacturer='verif')
+    bio = io.BytesIO()
+    doc.save_as(bio)
+    ds = pydicom.dcmread(io.BytesIO(bio.getvalue()))
+    if versioned:
+        version_all(ds)
+    out = io.BytesIO()
+    ds.save_as(out)
+    return hd.sr.srread(io.BytesIO(out.getvalue())).content
+
+
+def answers2(content):
+    out = {}
+    for m in ('get_planar_roi_measurement_groups', 'get_volumetric_roi_measurement_groups', 'get_image_measurement_groups'):
+        try:
+            out[m] = [str(s.tracking_uid) for s in getattr(content, m)()]
+        except Exception as e:  # noqa: BLE001
+            out[m] = f'{type(e).__name__}: {e}'[:120]
+    try:
+        out['observer contexts'] = len(content.get_observer_contexts())
+        out['subject contexts'] = len(content.get_subject_contexts())
+    except Exception as e:  # noqa: BLE001
+        out['contexts'] = f'{type(e).__name__}: {e}'[:120]
+    return out
+
+
+r = random.Random(5)
+rep, groups, pool = srreports.report(r, 3, ('planar', 'volumetric'))
+plain, versioned = answers2(document(rep, groups, pool, False)), answers2(document(rep, groups, pool, True))
+for k in plain:
+    same = plain[k] == versioned.get(k)
+    print(k, '\n   plain document             :', plain[k], '\n   every name with version 01 :', versioned.get(k), '' if same else '   <-- DIFFERS')
+    bad += not same
 sys.exit(1 if bad else 0)
